@@ -37,6 +37,28 @@ def rule_tpl_role(ctx):
         it = A.iteration_of(mac, fn.block) if mac is not None else None
         src, pat, stmts = it if it else (None, None, [])
         sel = [A.render_stmt(x).rstrip(";") for x in stmts if A.kind(x) == "Stmt::Local"]
+        # a selector written as an earlier stage of the chain (`(0..n).map(Index::from).map(|i| ..)`,
+        # `fields.iter().map(|field| field.ident.as_ref().unwrap()).map(|field_id| ..)`) reads like the `let` in the body
+        if it and src and ".map(" in src:
+            k_ = src.rfind(".map(")
+            base, stage = src[:k_], src[k_ + 5 :]
+
+            def _bal(t_):
+                while t_.count(")") > t_.count("(") and t_.endswith(")"):
+                    t_ = t_[:-1]
+                while t_.count("(") > t_.count(")") and t_.startswith("("):
+                    t_ = t_[1:]
+                return t_
+
+            base, stage = _bal(base), _bal(stage)
+            base = re.sub(r"\.(iter|into_iter)\(\)$", "", base)
+            mc_ = re.fullmatch(r"\|(\w+)\|(.*)", stage)
+            if mc_:
+                sel.append(f"let {pat}={mc_.group(2)}")
+                src = base
+            elif re.fullmatch(r"[\w:]+", stage):
+                sel.append(f"let {pat}={stage}({pat})")
+                src = base
         if qual == "tuple_exprs" and not (it and A.wfull(src, "0..fields.len()") and any(A.wfull(x, "let i=Index::from(i)") for x in sel)):
             ctx.report("role:tuple_exprs:index", ctx.where(fn.file, fn.node), f"`tuple_exprs` no longer walks the indices 0..fields.len() in order (iterates `{src}`, selectors {sel})", {})
         if qual == "struct_exprs" and not (it and A.wfull(src, "fields") and any(A.wfull(x, "let field_id=field.ident.as_ref().unwrap()") for x in sel)):
